@@ -372,8 +372,22 @@ def make(env, kind, cfg):
     return ADAPTERS[kind](env, cfg)
 
 
-def new_item(name, length=1, tag=0):
-    it = Item(name)
+class FalsyItem(Item):
+    """A perfectly good item whose truth value is False (like an empty container)."""
+    def __len__(self):
+        return 0
+
+
+def new_item(name, length=1, tag=0, kind=None):
+    if kind == "pallet":
+        from factorysimpy.helper.pallet import Pallet
+        it = Pallet(name)               # an empty pallet
+    elif kind == "falsy":
+        it = FalsyItem(name)
+    elif isinstance(kind, (list, tuple)) and kind and kind[0] == "dup":
+        it = Item(kind[1])              # a distinct object that carries the id of another item
+    else:
+        it = Item(name)
     it.length = length
     it.tag = tag
     return it
